@@ -128,6 +128,49 @@ Theorem unpack_default : forall n fr r s,
 Proof. exact unpack_default_lemma. Qed.
 Print Assumptions unpack_default.
 
+(* the compatibility table `arg` is a NEW table for every call (wave 5): call set-up allocates it
+   behind every table of the caller's store and leaves those as they are; since the store only grows
+   while code runs, the table of an earlier call is never handed to a later one, whatever ran (or
+   failed) in between, and setting the later call up does not touch the earlier table *)
+From GL Require Lua.DriveRunFacts Lua.CallFreshFacts.
+
+Theorem arg_table_fresh : forall s c args,
+  let s1 := callee_state s c args in
+  (has_arg_table c = true -> length (tabs s1) = S (length (tabs s))) /\
+  (has_arg_table c = false -> tabs s1 = tabs s) /\
+  (forall j, (j < length (tabs s))%nat -> nth j (tabs s1) empty_tab = nth j (tabs s) empty_tab).
+Proof. exact CallFreshFacts.arg_table_fresh_lemma. Qed.
+Print Assumptions arg_table_fresh.
+
+Theorem arg_tables_distinct : forall s c args s2 c2 args2,
+  has_arg_table c = true -> has_arg_table c2 = true ->
+  DriveRunFacts.store_grows (callee_state s c args) s2 ->
+  let r1 := length (tabs s) in
+  let r2 := length (tabs s2) in
+  let s3 := callee_state s2 c2 args2 in
+  (r1 < r2)%nat /\
+  nth (length (cells s2) + length (c_params c2)) (cells s3) VNil = VTab r2 /\
+  nth r2 (tabs s3) empty_tab = arg_table (callee_varargs c2 args2) /\
+  nth r1 (tabs s3) empty_tab = nth r1 (tabs s2) empty_tab.
+Proof. exact CallFreshFacts.arg_tables_distinct_lemma. Qed.
+Print Assumptions arg_tables_distinct.
+
+Theorem arg_table_not_reused : forall n fr f a s c args r s2 c2 args2,
+  has_arg_table c = true -> has_arg_table c2 = true ->
+  call n fr f a (callee_state s c args) = Ret r s2 ->
+  (length (tabs s) < length (tabs s2))%nat /\
+  nth (length (tabs s)) (tabs (callee_state s2 c2 args2)) empty_tab = nth (length (tabs s)) (tabs s2) empty_tab.
+Proof. exact CallFreshFacts.arg_table_not_reused_lemma. Qed.
+Print Assumptions arg_table_not_reused.
+
+Theorem arg_table_not_reused_after_error : forall n fr f a s c args v s2 c2 args2,
+  has_arg_table c = true -> has_arg_table c2 = true ->
+  call n fr f a (callee_state s c args) = Err v s2 ->
+  (length (tabs s) < length (tabs s2))%nat /\
+  nth (length (tabs s)) (tabs (callee_state s2 c2 args2)) empty_tab = nth (length (tabs s)) (tabs s2) empty_tab.
+Proof. exact CallFreshFacts.arg_table_not_reused_after_error_lemma. Qed.
+Print Assumptions arg_table_not_reused_after_error.
+
 (* ---------------------------------------------------------------------------------------------
    M-VM (coq/VMX): the call mechanisms on the real register-window arithmetic of _state.go /
    _vm.go, for arbitrary registries, positions and counts. *)
